@@ -78,6 +78,7 @@ fn check_legacy(ir: &Ir, ur: i128, rep: &mut Report) {
         return;
     }
     rep.bump("legacy_cases");
+    rep.bump("cases");
     let cfgs = format!("legacy optimal={} plateau={} max={} ur={}", ir.optimal, ir.plateau, ir.max_ir, ur);
     match base(ir, ur) {
         Ok(Some(b)) => {
@@ -110,6 +111,7 @@ fn check_seven(ir: &Ir, u1: i128, u2: i128, rep: &mut Report) {
         return;
     }
     rep.bump("seven_cases");
+    rep.bump("cases");
     let desc = format!("seven zero={} hundred={} pts={:?}", ir.zero, ir.hundred, ir.pts);
     let zr = rate_from_u32(ir.zero);
     let hr = rate_from_u32(ir.hundred);
